@@ -151,6 +151,45 @@ theorem step_buildMap (n pc : Nat) (a : St) :
   · subst h; simp [cop, step_push]
   · simp [cop, h, step_popPush]
 
+theorem cop_unaryInstr (op : UnaryOperator) : cop (unaryInstr op) = .popPush 1 false := by
+  cases op <;> rfl
+
+theorem flagSlots_map (m : List MapEntry) : flagSlots (m.map MapEntry.isSpread) = mapSlots m := by
+  induction m with
+  | nil => rfl
+  | cons x xs ih => cases x <;> simp [flagSlots, mapSlots, MapEntry.isSpread, ih]
+
+theorem mapSlots_noSpread (m : List MapEntry) (h : m.any MapEntry.isSpread = false) :
+    mapSlots m = 2 * m.length := by
+  induction m with
+  | nil => rfl
+  | cons x xs ih =>
+    rw [List.any_cons, Bool.or_eq_false_iff] at h
+    cases x with
+    | keyValue k v =>
+      have := ih h.2
+      simp only [mapSlots, this, List.length_cons]; omega
+    | spread e => exact absurd h.1 (by simp [MapEntry.isSpread])
+
+theorem step_mapBuild (m : List MapEntry) (pc : Nat) (a : St) :
+    step (cop (mapBuild m)) pc (pushN a (mapSlots m)) = some [(pc + 1, pushN a 1)] := by
+  unfold mapBuild
+  by_cases h : m.any MapEntry.isSpread = true
+  · rw [if_pos h]
+    simp only [cop, flagSlots_map]
+    exact step_popPush _ _ _
+  · rw [if_neg h, mapSlots_noSpread m (by simpa using h)]
+    exact step_buildMap _ _ _
+
+theorem step_arrayBuild (it : List ArrayEntry) (pc : Nat) (a : St) :
+    step (cop (arrayBuild it)) pc (pushN a it.length) = some [(pc + 1, pushList a)] := by
+  unfold arrayBuild
+  split
+  · simp only [cop, List.length_map]
+    exact step_popPushList _ _ _
+  · simp only [cop]
+    exact step_popPushList _ _ _
+
 theorem step_pop1 (pc : Nat) (a : St) : step (.pop 1) pc (pushN a 1) = some [(pc + 1, a)] := by
   simp [step, pushN, List.replicate]
 
@@ -274,15 +313,85 @@ theorem head_aux :
   all_goals (try (simp_all (config := { zetaDelta := true }) [List.head?_append, mapSlots, head?_append_cons2]; done))
   all_goals (try grind [List.head?_append, head?_append_cons2])
 
-theorem head_expr {T : List St} {b : Nat} {loop : Option Nat} {a : St} {e : Expr}
-    (h : exprScoped e = true) (hs : Seg T b (exprTab b loop a e)) : T[b]? = some a := by
-  have hh := head_aux.1 0 none e b loop a h
-  cases hl : exprTab b loop a e with
-  | nil => rw [hl] at hh; simp at hh
+theorem tabLen1 (e base loop a) : (exprTab base loop a e).length = (exprCode base loop e).length :=
+  tab_length_aux.1 0 none e base loop a
+theorem tabLen2 (ns base loop a) : (nodesTab base loop a ns).length = (nodesCode base loop ns).length :=
+  tab_length_aux.2.1 0 none ns base loop a
+theorem tabLen3 (n base loop a) : (nodeTab base loop a n).length = (nodeCode base loop n).length :=
+  tab_length_aux.2.2.1 0 none n base loop a
+theorem tabLen4 (k base loop a) : (kwargsTab base loop a k).length = (kwargsCode base loop k).length :=
+  tab_length_aux.2.2.2.1 0 none k base loop a
+theorem tabLen5 (f base loop a) : (filtersTab base loop a f).length = (filtersCode base loop f).length :=
+  tab_length_aux.2.2.2.2.1 0 none f base loop a
+theorem tabLen6 (o base loop a) : (condTab base loop a o).length = (condCode base loop o).length :=
+  tab_length_aux.2.2.2.2.2.1 0 none o base loop a
+theorem optLen (o : Option Expr) (base : Nat) (loop : Option Nat) (d d' : CInstr) :
+    (optExprCode base loop d o).length = (optExprCode base loop d' o).length := by
+  cases o <;> simp [optExprCode]
+theorem optLen1 (o : Option Expr) (base : Nat) (loop : Option Nat) :
+    (optExprCode base loop (.loadConst (.i64 1)) o).length
+      = (optExprCode base loop (.loadConst .none) o).length := optLen o base loop _ _
+theorem tabLen7 (o base loop a) :
+    (optExprTab base loop a o).length = (optExprCode base loop (.loadConst .none) o).length :=
+  tab_length_aux.2.2.2.2.2.2.1 0 none .not o base loop _ a
+theorem tabLen8 (it base loop a) :
+    (arrayItemsTab base loop a it).length = (arrayItemsCode base loop it).length :=
+  tab_length_aux.2.2.2.2.2.2.2.1 0 none it base loop a
+theorem tabLen9 (m base loop a) : (mapItemsTab base loop a m).length = (mapItemsCode base loop m).length :=
+  tab_length_aux.2.2.2.2.2.2.2.2 0 none m base loop a
+
+theorem seg_head1 {α : Type} {C : List α} {base : Nat} {l : List α} {a : α}
+    (hs : Seg C base l) (h : l.head? = some a) : C[base]? = some a := by
+  cases l with
+  | nil => simp at h
   | cons y ys =>
-    rw [hl] at hh hs
-    simp at hh
-    rw [((seg_cons T b y ys).mp hs).1, hh]
+    simp at h
+    rw [((seg_cons C base y ys).mp hs).1, h]
+
+theorem head_expr {T : List St} {b : Nat} {loop : Option Nat} {a : St} {e : Expr}
+    (hs : Seg T b (exprTab b loop a e)) (h : exprScoped e = true) : T[b]? = some a :=
+  seg_head1 hs (head_aux.1 0 none e b loop a h)
+
+theorem head_opt {T : List St} {b : Nat} {loop : Option Nat} {a : St} {o : Option Expr}
+    (hs : Seg T b (optExprTab b loop a o)) (h : optExprScoped o = true) : T[b]? = some a :=
+  seg_head1 hs (head_aux.2.2.2.2.2.2.1 0 none .not o b loop a h)
+
+theorem head_node {T : List St} {b : Nat} {loop : Option Nat} {a : St} {n : Node} {il : Bool}
+    (hs : Seg T b (nodeTab b loop a n)) (h : nodeScoped il n = true)
+    (hl : il = true → loop.isSome = true) : T[b]? = some a :=
+  seg_head1 hs (head_aux.2.2.1 0 none n b loop a il h hl)
+
+theorem head_nodes {T : List St} {b : Nat} {loop : Option Nat} {a : St} {ns : List Node} {il : Bool}
+    (hs : Seg T b (nodesTab b loop a ns)) (he : T[b + (nodesCode b loop ns).length]? = some a)
+    (h : nodesScoped il ns = true) (hl : il = true → loop.isSome = true) : T[b]? = some a :=
+  seg_head' hs (by rw [tabLen2]; exact he) (head_aux.2.1 0 none ns b loop a il h hl)
+
+theorem head_kwargs {T : List St} {b : Nat} {loop : Option Nat} {a : St} {k : List (String × Expr)}
+    (hs : Seg T b (kwargsTab b loop a k))
+    (he : T[b + (kwargsCode b loop k).length]? = some (pushN a (2 * k.length))) : T[b]? = some a :=
+  seg_head' hs (by rw [tabLen4]; exact he) (head_aux.2.2.2.1 0 none k b loop a)
+
+theorem head_filters {T : List St} {b : Nat} {loop : Option Nat} {a : St} {f : List Expr}
+    (hs : Seg T b (filtersTab b loop a f))
+    (he : T[b + (filtersCode b loop f).length]? = some (pushN a 1)) : T[b]? = some (pushN a 1) :=
+  seg_head' hs (by rw [tabLen5]; exact he) (head_aux.2.2.2.2.1 0 none f b loop a)
+
+theorem head_cond {T : List St} {b : Nat} {loop : Option Nat} {a x : St} {o : Option Expr}
+    (hs : Seg T b (condTab b loop a o)) (he : T[b + (condCode b loop o).length]? = some x)
+    (h : optExprScoped o = true) : T[b]? = some (if o.isSome then a else x) :=
+  seg_head' hs (by rw [tabLen6]; exact he) (head_aux.2.2.2.2.2.1 0 none o b loop a x h)
+
+theorem head_array {T : List St} {b : Nat} {loop : Option Nat} {a : St} {it : List ArrayEntry}
+    (hs : Seg T b (arrayItemsTab b loop a it))
+    (he : T[b + (arrayItemsCode b loop it).length]? = some (pushN a it.length))
+    (h : arrayItemsScoped it = true) : T[b]? = some a :=
+  seg_head' hs (by rw [tabLen8]; exact he) (head_aux.2.2.2.2.2.2.2.1 0 none it b loop a h)
+
+theorem head_map {T : List St} {b : Nat} {loop : Option Nat} {a : St} {m : List MapEntry}
+    (hs : Seg T b (mapItemsTab b loop a m))
+    (he : T[b + (mapItemsCode b loop m).length]? = some (pushN a (mapSlots m)))
+    (h : mapItemsScoped m = true) : T[b]? = some a :=
+  seg_head' hs (by rw [tabLen9]; exact he) (head_aux.2.2.2.2.2.2.2.2 0 none m b loop a h)
 
 /-! ### The statement proved for every construct -/
 
@@ -320,8 +429,9 @@ def WfM6 (o : Option Expr) : Prop :=
 def WfM7 (o : Option Expr) : Prop :=
   ∀ base loop dflt a C T, cop dflt = .push false → Seg C base (optExprCode base loop dflt o) →
     Seg T base (optExprTab base loop a o) →
-    T[base + (optExprCode base loop dflt o).length]? = some (pushN a 1) → optExprScoped o = true →
-    OKr C T base (optExprCode base loop dflt o).length
+    T[base + (optExprCode base loop (.loadConst .none) o).length]? = some (pushN a 1) →
+    optExprScoped o = true →
+    OKr C T base (optExprCode base loop (.loadConst .none) o).length
 def WfM8 (it : List ArrayEntry) : Prop :=
   ∀ base loop a C T, Seg C base (arrayItemsCode base loop it) → Seg T base (arrayItemsTab base loop a it) →
     T[base + (arrayItemsCode base loop it).length]? = some (pushN a it.length) →
